@@ -255,6 +255,12 @@ PROPS["C12"] = {
         "trusted: Kani MIR->goto translation, CBMC, CaDiCaL, hooks yacc::parser::verif::*",
     ],
     "instances": [
+        I("c12::c12_ws_f2", bounds="2 free chars, 7-letter alphabet (small instance)", termination=_SCANNERS),
+        I("c12::c12_string_f2", bounds="2 free chars (small instance)", termination=_SCANNERS),
+        I("c12::c12_action_b2", bounds="'{' + 2 free chars (small instance)", termination=_SCANNERS),
+        I("c12::c12_eol_f2", bounds="2 free chars (small instance)", termination=_SCANNERS),
+        I("c12::c12_colon_f2", bounds="2 free chars (small instance)", termination=_SCANNERS),
+        I("c12::c12_int_f2", bounds="2 free chars (small instance)", termination=_SCANNERS),
         I("c12::c12_ws_f3", bounds="3 free chars", termination=_SCANNERS, est_gb=5, mem_gb=16),
         I("c12::c12_ws_block2", bounds="'/*' + 2 free chars", termination=_SCANNERS, est_gb=6, mem_gb=16),
         I("c12::c12_ws_line2", bounds="'//' + 2 free chars", termination=_SCANNERS, est_gb=6, mem_gb=16),
@@ -307,6 +313,8 @@ PROPS["C10"] = {
         "trusted: Kani MIR->goto translation, CBMC, CaDiCaL, hook yacc::parser::verif::parse_ws",
     ],
     "instances": [
+        I("c12::c10_ws_f1", bounds="1 free char over 7-letter alphabet (small instance)", termination=_SCANNERS),
+        I("c12::c10_ws_f2", bounds="2 free chars over 7-letter alphabet (small instance)", termination=_SCANNERS),
         I("c12::c10_ws_f3", bounds="3 free chars over 7-letter alphabet", termination=_SCANNERS, est_gb=5, mem_gb=16),
         I("c12::c10_ws_block2", bounds="'/*' + 2 free chars", termination=_SCANNERS, est_gb=6, mem_gb=16),
         I("c12::c10_ws_star2", bounds="'/**' + 2 free chars", termination=_SCANNERS, est_gb=6, mem_gb=16),
